@@ -15,7 +15,7 @@
 #include "dict_gen.h"
 #include "dict_obj.h"
 
-extern "C" size_t libcsd_verif_memalloc = 32768;
+extern "C" int libcsd_verif_memalloc = 32768;
 
 namespace vh {
 
@@ -313,6 +313,25 @@ static void sweep_c02(Obj &o, const Case &c, XorShift &x) {
       cur->labels.insert(std::string("absent:") + q.cls);
       unsigned long id = op_locate(o, q.q, "locate_absent");
       if (id != 0) ev("C02", (std::string("false-positive:") + q.cls).c_str(), "locate(" + hexs(q.q) + ") = " + std::to_string(id) + " but the string is not a member");
+    }
+  }
+  // members stored next to each other, joined by a byte that occurs in no member (the hash kinds store
+  // their strings back to back with a closing symbol = largest byte + 1 between them): s_i + M + s_{i+1},
+  // in ID order, with M = largest byte + 1 and, as a control, the largest byte + 2
+  if (!skip("locate_absent") && !skip("extract") && n >= 2 && !obj_dead) {
+    unsigned maxb = 0;
+    for (auto &t : c.S) for (unsigned char ch : t) maxb = std::max<unsigned>(maxb, ch);
+    for (int k = 0; k < 6 && !obj_dead; k++) {
+      size_t i = 1 + x.below((uint32_t)(n - 1));
+      ExtR a = op_extract(o, i, "extract"), b = op_extract(o, i + 1, "extract");
+      if (a.null || b.null) break;
+      for (unsigned m = maxb + 1; m <= maxb + 2 && m <= 254; m++) {
+        std::string q = a.str + std::string(1, (char)m) + b.str;
+        if (model_index(c.S, q) >= 0) continue;
+        cur->labels.insert("absent:joined_neighbours");
+        unsigned long id = op_locate(o, q, "locate_absent");
+        if (id != 0) ev("C02", "false-positive:joined_neighbours", "locate(" + hexs(q.substr(0, 80)) + ") = " + std::to_string(id) + " but the string (members " + std::to_string(i) + " and " + std::to_string(i + 1) + " joined by byte " + std::to_string(m) + ") is not a member");
+      }
     }
   }
   if (!skip("extract_bad")) {
@@ -1050,6 +1069,35 @@ static void run_c06(const Case &c, XorShift &x) {
         if (l1) do_destroy(l1);
         obj_dead = false;
         if (l2) do_destroy(l2);
+      }
+      // the generic loader on the second image of the same stream: it selects the kind from the tag at the
+      // current position and consumes exactly that image
+      if (c.p.kind != K_BLOCKS && !cur->skip("load_generic") && !obj_dead) {
+        std::istringstream is2(stream, std::ios::in | std::ios::binary);
+        is2.seekg((std::streamoff)img.size());
+        StringDictionary *g2 = nullptr;
+        long long tg = -2;
+        cur->state = "gen";
+        cur->set_op("load_generic");
+        bool okg = lib([&] { g2 = StringDictionary::load(is2, c.p.loadopt); tg = (long long)is2.tellg(); });
+        if (okg && !g2) ev("C06", "generic-second-image-null", "the generic loader returns NULL for an image that does not start the stream");
+        else if (okg) {
+          if (tg != (long long)(img.size() + img2.size())) ev("C06", "generic-not-self-delimiting", "generic loader on the second image stopped at " + std::to_string(tg) + " expected " + std::to_string(img.size() + img2.size()));
+          Obj og{g2, c.p.kind, c2.S.size()};
+          obj_dead = false;
+          size_t ne = 0;
+          lib([&] { ne = g2->numElements(); });
+          if (!obj_dead && ne != c2.S.size()) ev("C06", "generic-second-image-wrong", "the generic loader positioned on the second image returns a dictionary of " + std::to_string(ne) + " elements, the image holds " + std::to_string(c2.S.size()));
+          else if (!obj_dead && !skip("locate_member") && !skip("extract")) {
+            const std::string &m = c2.S[x.below((uint32_t)c2.S.size())];
+            unsigned long id = op_locate(og, m, "locate_member");
+            ExtR e = op_extract(og, id, "extract");
+            if (!obj_dead && (id < 1 || id > c2.S.size() || e.null || e.str != m)) ev("C06", "generic-second-image-wrong", "dictionary loaded by the generic loader from the second image does not round-trip member " + hexs(m));
+            else if (!obj_dead) cur->labels.insert("c06_generic_second_image");
+          }
+          obj_dead = false;
+          do_destroy(g2);
+        }
       }
     }
   }
